@@ -314,3 +314,61 @@ Definition sizes (c : conn) : list N :=
     NN (length (writable c)); NN (length (readable c)); NN (length (stopped c));
     b2n (match error c with Some _ => true | None => false end);
     b2n (connected c) ].
+
+(* ---------------------------------------------------------------------- *)
+(* Drop for SendStream (send_stream.rs): unless the connection is dead (error
+   stored, or a rejected 0-RTT stream), `finish()`; if that reports that the
+   peer has stopped the stream, `reset(reason)`; wake the worker when something
+   has to be sent.  The protocol state machine's view of a send stream is the
+   environment: open, stopped by the peer, finished, reset. *)
+
+Inductive send_st := SOpen | SStopped (code : N) | SFinished | SReset (code : N).
+Inductive finish_answer := FOk | FStopped (code : N) | FClosed.
+
+Definition sm_finish (st : send_st) : finish_answer * send_st :=
+  match st with
+  | SOpen => (FOk, SFinished)
+  | SStopped c => (FStopped c, st)
+  | _ => (FClosed, st)
+  end.
+
+Definition sm_reset (st : send_st) (c : N) : bool * send_st :=
+  match st with
+  | SOpen | SStopped _ => (true, SReset c)
+  | _ => (false, st)
+  end.
+
+(* result: the stream's state afterwards, whether the worker was woken *)
+Definition send_drop (dead : bool) (st : send_st) : send_st * bool :=
+  if dead then (st, false) else
+  match sm_finish st with
+  | (FOk, st1) => (st1, true)
+  | (FStopped r, st1) => let '(ok, st2) := sm_reset st1 r in (st2, ok)
+  | (FClosed, st1) => (st1, false)
+  end.
+
+Definition closed_towards_peer (st : send_st) : bool :=
+  match st with SFinished | SReset _ => true | _ => false end.
+
+(* ---------------------------------------------------------------------- *)
+(* RecvStream::read_to_end (recv_stream.rs): unordered chunks (offset, bytes)
+   are collected until the end of the stream; the result has length
+   end - start, where start is the lowest offset and end the highest end seen,
+   and every chunk is copied to position offset - start. *)
+
+Definition chunk := (nat * list byte)%type.
+
+Fixpoint rte_min (cs : list chunk) (m : nat) : nat :=
+  match cs with [] => m | c :: r => rte_min r (Nat.min m (fst c)) end.
+Fixpoint rte_max (cs : list chunk) (m : nat) : nat :=
+  match cs with [] => m | c :: r => rte_max r (Nat.max m (fst c + length (snd c))) end.
+
+Definition rte_start (cs : list chunk) : nat :=
+  match cs with [] => 0 | c :: r => rte_min r (fst c) end.
+Definition rte_end (cs : list chunk) : nat := rte_max cs 0.
+
+Definition read_to_end_assemble (cs : list chunk) : list byte :=
+  let s := rte_start cs in
+  let e := rte_end cs in
+  if Nat.leb e s then [] else
+  fold_left (fun buf c => write_at buf (fst c - s) (snd c)) cs (repeat_b 0%N (e - s)).
